@@ -374,7 +374,7 @@ pub fn run_case(ctx: &mut Ctx, fam: &str, k: u64, r: &mut Rng) {
             ctx.count("adjoints_skipped_kink", 1);
             continue;
         }
-        let (want, _) = match expected_gradient(&p, e.node, &seedv, root) {
+        let (want, wscale) = match expected_gradient_scaled(&p, e.node, &seedv, root, !exact) {
             Some(x) => x,
             None => continue,
         };
@@ -383,7 +383,7 @@ pub fn run_case(ctx: &mut Ctx, fam: &str, k: u64, r: &mut Rng) {
         let vals_ok = if exact {
             e.seed == want
         } else {
-            e.seed.iter().zip(&want).all(|(a, b)| (a - b).abs() <= 1e-9 * b.abs().max(1.0))
+            e.seed.iter().zip(&want).zip(&wscale).all(|((a, b), sc)| (a - b).abs() <= tau() * sc.max(b.abs()).max(1.0))
         };
         if !dims_ok || !vals_ok {
             ctx.violation(
